@@ -1,4 +1,5 @@
 import Proofs.Hash
+import Proofs.HashMemo
 /-!
 # C06 — DeepHash: equal content hashes equally
 
@@ -78,5 +79,63 @@ theorem C06_N_set_ordered_mode (H : String → String) (hinj : Function.Injectiv
     simp [String.length_toList, hlen]
   have h4 := (List.append_inj h3 hl).1
   exact hab (String.ext h4)
+
+/-! ### sharing or pre-seeding the hash table
+
+Model: `Model/Hash/Memo.lean` (`hashM` = `_hash` with `self.hashes` threaded through: lookup by `==`
+before, store after; compared with the real `DeepHash(v, hashes=table)` digest for digest, aliasing
+pairs included). -/
+
+/-- **The memo table is transparent.**  For every table that only holds right answers (`Inv`), every
+value of any size and nesting of a universe `U` on which keys the table identifies hash equally
+(NoNumAlias): hashing through the table gives the hash computed from scratch, and the table keeps
+only right answers. -/
+theorem C06_memo_transparent (cfg : HCfg) (H : String → String) (U : PyVal → Prop) (hU : ClosedU U) (hna : NoAlias cfg H U)
+    (T : Table) (hT : Inv cfg H U T) (v : PyVal) (hv : U v) :
+    (hashM cfg H T v).1 = hashV cfg H v ∧ Inv cfg H U (hashM cfg H T v).2 :=
+  memo_V hU hna v T hT hv
+
+/-- the tables of every history: after hashing any sequence of values of `U` into one table, each with
+the digest it has on its own, the table still only holds right answers -/
+theorem C06_shared_table_history (cfg : HCfg) (H : String → String) (U : PyVal → Prop) (hU : ClosedU U) (hna : NoAlias cfg H U) :
+    ∀ (ws : List PyVal) (T : Table), Inv cfg H U T → (∀ w ∈ ws, U w) →
+      Inv cfg H U (ws.foldl (fun T w => (hashM cfg H T w).2) T) ∧
+      ∀ v, U v → (hashM cfg H (ws.foldl (fun T w => (hashM cfg H T w).2) T) v).1 = hashV cfg H v := by
+  intro ws
+  induction ws with
+  | nil => intro T hT _; exact ⟨hT, fun v hv => (memo_V hU hna v T hT hv).1⟩
+  | cons w ws ih =>
+    intro T hT hw
+    rw [List.foldl_cons]
+    exact ih _ (memo_V hU hna w T hT (hw w (List.mem_cons_self ..))).2 (fun x hx => hw x (List.mem_cons_of_mem _ hx))
+
+/-- `DeepHash(w)` then `DeepHash(v, hashes=<the same table>)`: both digests are the ones the values
+have on their own -/
+theorem C06_preseeded (cfg : HCfg) (H : String → String) (U : PyVal → Prop) (hU : ClosedU U) (hna : NoAlias cfg H U)
+    (w v : PyVal) (hw : U w) (hv : U v) : deepHashShared cfg H w v = (hashV cfg H w, hashV cfg H v) := by
+  have hI : Inv cfg H U [] := ⟨by intro p hp; simp at hp, by intro p hp; simp at hp⟩
+  obtain ⟨h1, h2⟩ := memo_V hU hna w [] hI hw
+  obtain ⟨h3, _⟩ := memo_V hU hna v _ h2 hv
+  simp only [deepHashShared, h1, h3]
+
+/-- a sufficient condition for `NoAlias`: on `U`, keys the table identifies are the same value -/
+theorem C06_noAlias_of_strict (cfg : HCfg) (H : String → String) (U : PyVal → Prop)
+    (h : ∀ x y, U x → U y → tblEq x y = true → x = y) : NoAlias cfg H U := by
+  intro x y hx hy he
+  rw [h x y hx hy he]
+
+/-- **Negative witness (finding F6).** Outside NoNumAlias the table is not transparent: after `1` has
+been hashed, `1.0` is answered with the digest of `1` — for every hasher. -/
+theorem C06_N_table_alias (H : String → String) :
+    (deepHashShared {} H (.int 1) (.float 1 0)).2 = hashV {} H (.int 1) := by
+  simp [deepHashShared, hashM, memoize, lookup, tblEq, keyEq, numEq, numOf, pow10, memoisable, hashable]
+
+/-! Non-vacuity: a closed universe with a nested value on which the table identifies only equal keys. -/
+example : ClosedU (fun v => v = .list [.str "a", .int 1] ∨ v = .str "a" ∨ v = .int 1) := by
+  refine ⟨?_, ?_, ?_, ?_, ?_, ?_⟩ <;> intro xs h <;> rcases h with h | h | h <;> simp_all
+example : ∀ x y : PyVal, (x = .list [.str "a", .int 1] ∨ x = .str "a" ∨ x = .int 1) → (y = .list [.str "a", .int 1] ∨ y = .str "a" ∨ y = .int 1) →
+    tblEq x y = true → x = y := by
+  intro x y hx hy h
+  rcases hx with rfl | rfl | rfl <;> rcases hy with rfl | rfl | rfl <;> simp_all [tblEq, keyEq, numEq, numOf]
 
 end Hash
